@@ -8,7 +8,8 @@
 //   pkt  <ack> [-|<edge>...]       TCP built through the API (TCP::sack), handed over as a bare TCP PDU
 //   pktw <ack> [-|<edge>...]       the same inside EthernetII/IP, serialised and re-parsed from the wire bytes
 //   pktn                           a packet without a TCP layer (IP / RawPDU)
-//   opt  <ack> <hex>               TCP with a SACK option carrying arbitrary data bytes
+//   opt  <ack> <hex>               TCP with a SACK option carrying arbitrary data bytes (an undecodable option makes
+//                                  AckTracker::process_packet throw malformed_option; Flow::process_packet catches it)
 //   q <seq> <len>                  is_segment_acked
 // All numbers are decimal and are reduced to uint32_t here (the generator uses absolute positions).
 // Every answer: `<tag> ack=<n> ivs=<lo>-<hi>,...` (+ ` acked=<b>` for q, + ` grid=<bits>` after packets), the
